@@ -244,6 +244,15 @@ class Flattener:
             ast.fix_missing_locations(second)
             rep = self.expand_stmt(first, ctx_fi, caller_names | {tmp}, stack, depth)
             return (rep if rep is not None else [first]) + [second]
+        if isinstance(s, ast.Raise) and isinstance(s.exc, ast.Call) and self.inlinable_target(s.exc, ctx_fi, stack) is not None:
+            # raise helper(args)  ==>  exc = helper(args); raise exc
+            tmp = f"exc_h{next(_counter)}"
+            first = ast.copy_location(ast.Assign(targets=[ast.Name(id=tmp, ctx=ast.Store())], value=s.exc), s)
+            second = ast.copy_location(ast.Raise(exc=ast.Name(id=tmp, ctx=ast.Load()), cause=s.cause), s)
+            ast.fix_missing_locations(first)
+            ast.fix_missing_locations(second)
+            rep = self.expand_stmt(first, ctx_fi, caller_names | {tmp}, stack, depth)
+            return (rep if rep is not None else [first]) + [second]
         outer = s.value if isinstance(s, (ast.Expr, ast.Assign, ast.Return)) and isinstance(getattr(s, "value", None), ast.Call) else None
         if outer is not None and self.inlinable_target(outer, ctx_fi, stack) is None:
             # f(.., helper(..), ..)  ==>  arg = helper(..); f(.., arg, ..)   (only when everything evaluated before it is simple)
